@@ -65,16 +65,16 @@ def refuse(node, why):
 
 
 # ---- signature table (trusted) -------------------------------------------------------------------------
-# key, class, method, parameters (name, type) after self, reads self.maxsize, result type, reference transcription
+# key, class, method, parameters (name, type) after self, reads self.maxsize, result type
 FUNCS = [
-    ("len", "HallOfFame", "__len__", [], False, "Z", "m_len"),
-    ("getitem", "HallOfFame", "__getitem__", [("i", "Z")], False, "ref", "m_getitem"),
-    ("iter", "HallOfFame", "__iter__", [], False, "list ref", "m_iter"),
-    ("insert", "HallOfFame", "insert", [("item", "ref")], False, "unit", "m_insert"),
-    ("remove", "HallOfFame", "remove", [("index", "Z")], False, "unit", "m_remove"),
-    ("clear", "HallOfFame", "clear", [], False, "unit", "m_clear"),
-    ("hof_update", "HallOfFame", "update", [("population", "list ref")], True, "unit", "m_hof_update"),
-    ("pf_update", "ParetoFront", "update", [("population", "list ref")], False, "unit", "m_pf_update"),
+    ("len", "HallOfFame", "__len__", [], False, "Z"),
+    ("getitem", "HallOfFame", "__getitem__", [("i", "Z")], False, "ref"),
+    ("iter", "HallOfFame", "__iter__", [], False, "list ref"),
+    ("insert", "HallOfFame", "insert", [("item", "ref")], False, "unit"),
+    ("remove", "HallOfFame", "remove", [("index", "Z")], False, "unit"),
+    ("clear", "HallOfFame", "clear", [], False, "unit"),
+    ("hof_update", "HallOfFame", "update", [("population", "list ref")], True, "unit"),
+    ("pf_update", "ParetoFront", "update", [("population", "list ref")], False, "unit"),
 ]
 BY_METHOD = {"__len__": "len", "__getitem__": "getitem", "__iter__": "iter", "insert": "insert", "remove": "remove",
              "clear": "clear"}
@@ -144,23 +144,24 @@ def mutates_self(stmts):
 
 
 def assigned_names(stmts):
-    """names a block may (re)bind or change in place, in order of first occurrence"""
-    out = []
-
-    def add(x):
-        if x not in out:
-            out.append(x)
+    """names a block may (re)bind or change in place, in source order of their first such occurrence"""
+    found = []
     for s in stmts:
         for n in ast.walk(s):
             if isinstance(n, ast.Name) and isinstance(n.ctx, (ast.Store, ast.Del)):
-                add(n.id)
+                found.append((n.lineno, n.col_offset, n.id))
             elif isinstance(n, ast.Call) and isinstance(n.func, ast.Attribute) and isinstance(n.func.value, ast.Name) \
                     and n.func.value.id != "self":
-                add(n.func.value.id)            # x.append(..) and any other method call on a local
+                v = n.func.value                # x.append(..) and any other method call on a local
+                found.append((v.lineno, v.col_offset, v.id))
             elif isinstance(n, ast.Delete):
                 for t in n.targets:
                     if isinstance(t, ast.Subscript) and isinstance(t.value, ast.Name):
-                        add(t.value.id)
+                        found.append((t.value.lineno, t.value.col_offset, t.value.id))
+    out = []
+    for _, _, x in sorted(found):
+        if x not in out:
+            out.append(x)
     return out
 
 
@@ -1005,7 +1006,7 @@ def reference_texts():
     return out
 
 
-def placeholder(key, params, maxsize, rettype, model, why):
+def placeholder(key, why):
     why = str(why).replace("*)", "* )").replace("(*", "( *").replace('"', "'")
     return "(* REFUSED %s: %s -- placeholder: the committed reference transcription (harness/c08_gen_ref.v.in), this method " \
            "is tied by the correspondence only *)\n%s" % (key, why, reference_texts()[key])
@@ -1031,7 +1032,7 @@ def translate_source(text, origin="deap/tools/support.py"):
         glob = Refuse("Module", "source does not parse: %s" % e)
     out = HEADER % origin
     available = {}
-    for key, cls, meth, params, maxsize, rettype, model in FUNCS:
+    for key, cls, meth, params, maxsize, rettype in FUNCS:
         try:
             if glob is not None:
                 raise glob
@@ -1042,10 +1043,10 @@ def translate_source(text, origin="deap/tools/support.py"):
             status[key] = None
         except Refuse as r:
             status[key] = r
-            txt = placeholder(key, params, maxsize, rettype, model, r)
+            txt = placeholder(key, r)
         except Exception as e:  # noqa  (a translator crash on an unforeseen construct is a refusal: fail closed)
             status[key] = Refuse("FunctionDef", "translator error %s: %s" % (type(e).__name__, e))
-            txt = placeholder(key, params, maxsize, rettype, model, status[key])
+            txt = placeholder(key, status[key])
         if meth in BY_METHOD:
             available[meth] = (key, params, rettype)
         out += txt + "\n\n"
